@@ -253,6 +253,9 @@ def check(ctx):
     # ---- C18.c payload released when the target is gone; nothing runs for a dead system ----
     n = core.adopt(ctx, c02, lambda o: o["rule"] == "C02.a" and any(k in o["key"] for k in ("single-disposition", "dispositions=", "abort-only", "run-on-take-some-arm")), "C18.c")
     n += core.adopt(ctx, c05, lambda o: o["rule"] == "C05.d", "C18.c")
+    # a scheduled reaction whose reactor is gone still goes through the runner (whose abort arm releases the payload share):
+    # the command's apply calls the runner exactly once on every path
+    n += core.adopt(ctx, c02, lambda o: o["rule"] == "C02.d" and "one-runner-call-per-path" in o["key"], "C18.c")
     ctx.floor("C18.c", n, 5, "shared abort/release obligations")
     # the abort helper runs nothing
     try:
